@@ -2,7 +2,7 @@
 C11 (source tie) — the hand-written model of `RrdpServer::find_deltas_truncate_age`
 (`KM.Pubd.findTruncateAge` / `truncLoop`, Pubd/Rrdp.lean) equals the definition that the translator
 `pure_fns` regenerates from `/repo/src/server/pubd/rrdp.rs` on every run
-(`Generated/PureFns.lean`, `KM.Gen.RrdpServer.find_deltas_truncate_age`).
+(`Generated/PureFnsC11.lean`, `KM.Gen.RrdpServer.find_deltas_truncate_age`).
 
 `deltas_le_max_partial` (Props/C11.lean) and the manager model (`Pubd/Manager.lean`) are about
 `findTruncateAge`.  With `gen_find_deltas_truncate_age_eq_model` that function is tied to the Rust
@@ -15,7 +15,7 @@ Differences that do not matter, bridged here: the model takes the list of pairs
 the generated definition takes abstract deltas `Δ`, the two wall-clock tests as parameter
 functions and all four configuration numbers.  The statement maps each delta to its pair.
 -/
-import KrillModel.Generated.PureFns
+import KrillModel.Generated.PureFnsC11
 import KrillModel.Pubd.Rrdp
 namespace KM.Props.C11Src
 open KM.Pubd
